@@ -1,7 +1,200 @@
-import MJ.Model.LexerSpec
+import MJ.Proofs.LexerTop
+import MJ.Proofs.LexerLL
+/-!
+# C10 — text is verbatim and whitespace control exact under any delimiter configuration
+
+Property theorems only (helper lemmas live in `MJ/Proofs/Lexer*.lean`).
+
+* `Lexer.lex cfg d find src` is the model of the root tokenizer of `compiler/lexer.rs`
+  (`MJ/Model/Lexer.lean`); `find` is the start-marker search — `Lexer.findStart d` is what the
+  tokenizer uses: `find_start_marker_memchr` for the default delimiters and the leftmost-longest
+  search `findLL d` (the specification of the Aho-Corasick path) otherwise;
+* `Lexer.Tmpl` is a template as a head text and (tag, text) pairs over the fixed tag vocabulary
+  (`{{ v }}`, `{% if t %}`, `{% endif %}`, `{# c #}`, `{% raw %}…{% endraw %}`, every marker in
+  {none, -, +} on every side), `unparse d` writes it with the delimiters `d`;
+* `Lexer.specRender` applies the five whitespace rules of the statement locally
+  (`MJ/Model/LexerSpec.lean`); `renderRes vm bm` is the text a render prints when a variable tag
+  prints `vm` and a block tag `bm`;
+* `Lexer.delimFree d tm`: no start delimiter of `d` begins inside a text of `tm` (also not
+  straddling into the next tag), at a tag the tag's own start delimiter is the longest match, raw
+  content contains no block start;
+* `Lexer.goodDelims d`: no line prefixes, distinct non-empty start delimiters that do not begin
+  with whitespace, end delimiters that begin with a character that is neither ASCII whitespace,
+  an identifier character nor `-`/`+`, and do not end in whitespace (true of every family in the
+  property's quantifier except the ones with line prefixes, which are covered by the differential
+  runs of the check).
+-/
 namespace MJ.C10
 open MJ.Lexer
 
-theorem placeholder : stripTrailingNl ['a', '\n'] = ['a'] := by decide
+/-- Full-strength statement for the model: for all 8 settings, all marker placements, all line
+    endings (texts are arbitrary character lists), every well-formed delimiter set and every
+    delimiter-free template, the tokenizer's text output is exactly what the five rules say. -/
+def C10_full : Prop :=
+  ∀ (cfg : Cfg) (vm bm : List Char) (d : Delims) (tm : Tmpl),
+    goodDelims d = true → delimFree d tm = true →
+    renderRes vm bm (lex cfg d (findStart d) (unparse d tm)) = some (specRender cfg vm bm tm)
+
+theorem findStart_eq_findLL (d : Delims) : findStart d = findLL d := by
+  by_cases h : d = defaultDelims
+  · subst h; exact findStart_default
+  · simp [findStart, h]
+
+theorem lex_eq_spec : C10_full := by
+  intro cfg vm bm d tm hg hf
+  rw [findStart_eq_findLL]
+  exact lex_spec cfg vm bm (good_of_goodDelims hg) tm hf
+
+/-- hypotheses are satisfiable: default delimiters, trim_blocks + lstrip_blocks,
+    `a\n  {% if t %}\r\n{{- v +}} x {# c -#}\n` -/
+example : goodDelims defaultDelims = true ∧
+    delimFree defaultDelims ⟨['a', '\n', ' ', ' '],
+      [(⟨.block .ifT, .none, .none⟩, ['\r', '\n']), (⟨.var, .minus, .plus⟩, [' ', 'x', ' ']),
+       (⟨.comment, .none, .minus⟩, ['\n'])]⟩ = true := by decide
+
+/-- the same with the search as a parameter: any search that is leftmost-longest in the sense of
+    `LeftmostLongest` (leftmost start, then longest pattern, line statement prefix only at line
+    start) gives the rules -/
+theorem lex_eq_spec_of_leftmostLongest (cfg : Cfg) (vm bm : List Char) (d : Delims) (find : FindStart)
+    (tm : Tmpl) (hfind : LeftmostLongest d find) (hg : goodDelims d = true) (hf : delimFree d tm = true) :
+    renderRes vm bm (lex cfg d find (unparse d tm)) = some (specRender cfg vm bm tm) := by
+  rw [leftmostLongest_unique hfind]
+  exact lex_spec cfg vm bm (good_of_goodDelims hg) tm hf
+
+example (d : Delims) : LeftmostLongest d (findLL d) := findLL_leftmostLongest d
+
+/-- `find_start_marker_memchr` meets the specification of the search for the default delimiters -/
+theorem memchr_is_leftmostLongest :
+    LeftmostLongest defaultDelims (fun _ rest => findStartDefault rest) := by
+  have : (fun (_ : List Char) rest => findStartDefault rest) = findLL defaultDelims := by
+    funext pre rest; exact findStartDefault_eq_findLL pre rest
+  rw [this]; exact findLL_leftmostLongest _
+
+/-- Text without a start marker is reproduced byte for byte, except for the one trailing line
+    break that goes unless `keep_trailing_newline` is set. -/
+theorem verbatim (cfg : Cfg) (vm bm : List Char) (d : Delims) (t : List Char)
+    (hg : goodDelims d = true) (hf : noStartIn d t [] = true) :
+    renderRes vm bm (lex cfg d (findStart d) t) = some (if cfg.keep then t else stripTrailingNl t) := by
+  have := lex_eq_spec cfg vm bm d ⟨t, []⟩ hg (by simpa [delimFree, tailFree] using hf)
+  simp only [unparse, unparseTail, List.append_nil] at this
+  rw [this]
+  cases hk : cfg.keep <;> simp [specRender, stripFinal, specTail, hk]
+
+example : goodDelims defaultDelims = true ∧ noStartIn defaultDelims ['{', ' ', '{', '\n', '}', '%', '}', '\r', '\n'] [] = true := by
+  decide
+
+/-- What `tokenize_root` emits in front of a tag is the text without exactly the suffix the rules
+    name for that side: all trailing whitespace for `-`, the horizontal whitespace back to the
+    start of the line for an unmarked block/comment/raw tag under `lstrip_blocks`, nothing
+    otherwise (`rightCut`).  `l` characters were already removed on the left. -/
+theorem lead_rule (cfg : Cfg) (first : Bool) (ctx : List Char) (hc : CtxOk first ctx) (g : Tag)
+    (t : List Char) (l : Nat) :
+    leadOf cfg g.l.ws g.marker (t.reverse ++ ctx) (t.drop l) =
+      (t.drop l).take (t.length - l - rightCut cfg first g.blockish g.l t) :=
+  leadOf_eq_cut cfg hc g.l g.marker g.blockish (Tag.marker_blockish g) (Tag.marker_ne_lineStmt g)
+    (Tag.marker_ne_lineComment g) t l
+
+example : CtxOk true [] := Or.inl ⟨rfl, rfl⟩
+example : CtxOk false ['}', '%'] := Or.inr ⟨rfl, '}', ['%'], rfl, by decide⟩
+
+/-- What is skipped behind a block/comment/raw tag (`handle_tail_ws`: now, or by the pending
+    `trim_leading_whitespace`) is exactly the prefix the rules name: all leading whitespace for
+    `-`, one line break under `trim_blocks` for an unmarked tag, nothing for `+` (`leftCut`). -/
+theorem tail_rule (cfg : Cfg) (m : Mark) (t' more : List Char) (hm : NoWsHead more) :
+    leftCut cfg true m t' =
+      (if (tailWs cfg m.ws (t' ++ more)).2 then wsPre t' else (tailWs cfg m.ws (t' ++ more)).1) := by
+  rw [tailWs_eq cfg m t' more hm, leftCut_eq]
+
+example : NoWsHead ['{', '{'] := Or.inr ⟨'{', ['{'], rfl, by decide⟩
+
+/-- One round of the root loop on `text ++ tag ++ …`: it emits the text minus both cuts, then the
+    tag, and continues behind the tag with the next text's left cut applied or pending. -/
+theorem round_rule (cfg : Cfg) (d : Delims) (hg : goodDelims d = true) (first : Bool) (ctx : List Char)
+    (hc : CtxOk first ctx) (t : List Char) (l : Nat) (hl : l ≤ t.length) (g : Tag) (t' : List Char)
+    (rest : List (Tag × List Char)) (hfree : tailFree d t ((g, t') :: rest) = true) :
+    step cfg d (findStart d) ((t.take l).reverse ++ ctx) (t.drop l ++ unparseTail d ((g, t') :: rest)) false =
+      .next (dataOut (cut l (rightCut cfg first g.blockish g.l t) t) ++ tagOuts cfg g)
+        ((t'.take (nextK cfg g.blockish g.r t')).reverse ++ ((g.src d).reverse ++ (t.reverse ++ ctx)))
+        (t'.drop (nextK cfg g.blockish g.r t') ++ unparseTail d rest) (nextTf g.r) := by
+  rw [findStart_eq_findLL]
+  exact step_text_tag cfg (good_of_goodDelims hg) hc t l hl g t' rest hfree
+
+/-- A raw block emits its content: what is printed for the tag is the content minus the cuts the
+    rules name for the inner sides of `{% raw %}` and `{% endraw %}` … -/
+theorem raw_rule (cfg : Cfg) (vm bm : List Char) (d : Delims) (h t' c : List Char) (l ri l2 r : Mark)
+    (hg : goodDelims d = true) (hf : delimFree d ⟨h, [(⟨.raw c ri l2, l, r⟩, t')]⟩ = true) :
+    ∃ a b, renderRes vm bm (lex cfg d (findStart d) (unparse d ⟨h, [(⟨.raw c ri l2, l, r⟩, t')]⟩)) =
+      some (a ++ cut (leftCut cfg true ri c) (rightCut cfg false true l2 c) c ++ b) := by
+  rw [lex_eq_spec cfg vm bm d _ hg hf]
+  cases hk : cfg.keep
+  · exact ⟨cut 0 (rightCut cfg true true l h) h,
+      (stripTrailingNl t').drop (leftCut cfg true r (stripTrailingNl t')),
+      by simp [specRender, stripFinal, mapLastText, specTail, tagOut, hk, Tag.blockish, List.append_assoc]⟩
+  · exact ⟨cut 0 (rightCut cfg true true l h) h, t'.drop (leftCut cfg true r t'),
+      by simp [specRender, specTail, tagOut, hk, Tag.blockish, List.append_assoc]⟩
+
+/-- … and the content is verbatim whenever no rule applies to those sides: `+` markers, or no
+    marker with `trim_blocks` (start side) / `lstrip_blocks` (end side) off.  In particular the
+    content is never scanned for tags. -/
+theorem raw_verbatim (cfg : Cfg) (c : List Char) (ri l2 : Mark)
+    (h1 : ri = .plus ∨ (ri = .none ∧ cfg.trim = false))
+    (h2 : l2 = .plus ∨ (l2 = .none ∧ cfg.lstrip = false)) :
+    cut (leftCut cfg true ri c) (rightCut cfg false true l2 c) c = c := by
+  have hl : leftCut cfg true ri c = 0 := by
+    rcases h1 with rfl | ⟨rfl, h⟩ <;> simp [leftCut, *]
+  have hr : rightCut cfg false true l2 c = 0 := by
+    rcases h2 with rfl | ⟨rfl, h⟩ <;> simp [rightCut, *]
+  rw [hl, hr, cut_zero_right]; rfl
+
+example : delimFree defaultDelims ⟨['x'], [(⟨.raw ['{', '{', ' ', 'v', ' ', '}', '}', '\n', ' '] .plus .none, .none, .minus⟩, [' '])]⟩ = true := by
+  decide
+
+/-- Rewriting a template's tags to other delimiters does not change what it renders, as long as
+    its texts contain no start delimiter of either set. -/
+theorem delim_invariance (cfg : Cfg) (vm bm : List Char) (d d' : Delims) (tm : Tmpl)
+    (hg : goodDelims d = true) (hg' : goodDelims d' = true)
+    (hf : delimFree d tm = true) (hf' : delimFree d' tm = true) :
+    renderRes vm bm (lex cfg d (findStart d) (unparse d tm)) =
+      renderRes vm bm (lex cfg d' (findStart d') (unparse d' tm)) := by
+  rw [lex_eq_spec cfg vm bm d tm hg hf, lex_eq_spec cfg vm bm d' tm hg' hf']
+
+/-- the same for any two searches that meet the leftmost-longest specification -/
+theorem delim_invariance_param (cfg : Cfg) (vm bm : List Char) (d d' : Delims) (find find' : FindStart)
+    (tm : Tmpl) (hfind : LeftmostLongest d find) (hfind' : LeftmostLongest d' find')
+    (hg : goodDelims d = true) (hg' : goodDelims d' = true)
+    (hf : delimFree d tm = true) (hf' : delimFree d' tm = true) :
+    renderRes vm bm (lex cfg d find (unparse d tm)) = renderRes vm bm (lex cfg d' find' (unparse d' tm)) := by
+  rw [lex_eq_spec_of_leftmostLongest cfg vm bm d find tm hfind hg hf,
+    lex_eq_spec_of_leftmostLongest cfg vm bm d' find' tm hfind' hg' hf']
+
+/-- prefix-sharing ERB-style delimiters `<%` / `<%=` / `<%#` with a shared end marker -/
+def erb : Delims :=
+  { bs := ['<', '%'], be := ['%', '>'], vs := ['<', '%', '='], ve := ['%', '>'],
+    cs := ['<', '%', '#'], ce := ['%', '>'], ls := [], lc := [] }
+
+/-- nested-prefix delimiters `<<` / `<<<<` -/
+def angle4 : Delims :=
+  { bs := ['<', '<'], be := ['>', '>'], vs := ['<', '<', '<', '<'], ve := ['>', '>', '>', '>'],
+    cs := ['<', '<', '#'], ce := ['#', '>', '>'], ls := [], lc := [] }
+
+/-- hypotheses of `delim_invariance` are satisfiable by prefix-sharing families and a template
+    with look-alike text -/
+example : goodDelims erb = true ∧ goodDelims angle4 = true ∧ goodDelims defaultDelims = true ∧
+    (let tm : Tmpl := ⟨[' ', '}', ' '], [(⟨.var, .none, .minus⟩, ['\n', '%', ' ']), (⟨.block .ifT, .plus, .none⟩, ['\n'])]⟩
+     delimFree erb tm = true ∧ delimFree angle4 tm = true ∧ delimFree defaultDelims tm = true) := by
+  decide
+
+/-- Text that merely looks like the default delimiters is plain text under other delimiters: the
+    tokenizer reproduces it (up to the trailing line break rule) although the default search
+    would find a tag in it. -/
+theorem lookalike_is_text (cfg : Cfg) (vm bm : List Char) (d : Delims) (t : List Char)
+    (hg : goodDelims d = true) (hf : noStartIn d t [] = true)
+    (_hlook : findStartDefault t ≠ none) :
+    renderRes vm bm (lex cfg d (findStart d) t) = some (if cfg.keep then t else stripTrailingNl t) :=
+  verbatim cfg vm bm d t hg hf
+
+example : noStartIn erb ['a', '{', '{', ' ', 'x', ' ', '}', '}', '{', '%', ' ', 'y', ' ', '%', '}'] [] = true ∧
+    findStartDefault ['a', '{', '{', ' ', 'x', ' ', '}', '}', '{', '%', ' ', 'y', ' ', '%', '}'] ≠ none := by
+  decide
 
 end MJ.C10
